@@ -13,6 +13,7 @@ Inductive case :=
          (cs : list (nat * bcmd)) (used : list nat) (order : list (list key)) (flts : list nat) (fds : list fdesc)
          (raised stuck : bool) (locks_left : list (list key)) (data : list (list (option val)))
          (lock_life : list (list Z))       (* remaining lifetime (ticks) of every lock key left behind, per backend *)
+         (dlife : list (list Z))           (* per backend, per data key: remaining lifetime in ticks, -1 = no deadline, -2 = absent *)
 (* one command ends with a BaseException that is not an Exception (CancelledError, e.g. a timeout around a hanging command):
    the exit paths for that class are not modelled; only "the task has left the transaction" is judged *)
 | CCancel (stuck : bool).
@@ -24,6 +25,8 @@ Definition lock_universe (md : mode) (U : list key) : list key :=
 Definition locks_in (md : mode) (U : list key) (now : Z) (x : txb) : list key :=
   filter (fun lk => isSome (s_look (bB x) now lk)) (lock_universe md U).
 Definition data_of (U : list key) (now : Z) (x : txb) : list (option val) := map (fun k => s_get (bB x) now k) U.
+Definition dlife_of (U : list key) (now : Z) (x : txb) : list Z :=
+  map (fun k => match s_look (bB x) now k with Some (Some d, _) => d - now | Some (None, _) => -1 | None => -2 end) U.
 
 Fixpoint insert_z (x : Z) (l : list Z) : list Z := match l with [] => [x] | y :: r => if x <=? y then x :: l else y :: insert_z x r end.
 Definition sort_z (l : list Z) := fold_right insert_z [] l.
@@ -32,13 +35,14 @@ Definition ldata_eqb := list_eqb (list_eqb (option_eqb val_eqb)).
 
 Definition judge (c : case) : verdict :=
   match c with
-  | CFault md U now init cs used order flts fds raised stuck locks_left data lock_life =>
+  | CFault md U now init cs used order flts fds raised stuck locks_left data lock_life dlife =>
       let w0 := {| bks := map (init_b now) init; pos := 0%nat; faults := flts; lorder := order |} in
       let '(w, mraised, mstuck) := block md U now w0 used cs in
       let life_of (x : txb) := map (fun lk => match s_look (bB x) now lk with Some (Some d, _) => d - now | _ => -1 end) (locks_in md U now x) in
       let agree := list_eqb (fun a b => list_eqb Z.eqb (sort_z a) (sort_z b)) (map life_of (bks w)) lock_life && Bool.eqb mraised raised && Bool.eqb mstuck stuck &&
                    list_eqb same_set (map (locks_in md U now) (bks w)) locks_left &&
-                   ldata_eqb (map (data_of U now) (bks w)) data in
+                   ldata_eqb (map (data_of U now) (bks w)) data &&
+                   list_eqb (list_eqb Z.eqb) (map (dlife_of U now) (bks w)) dlife in
       let ok :=
         negb stuck &&
         (* a lock key that is still there: its own release was the failing command *)
@@ -49,13 +53,15 @@ Definition judge (c : case) : verdict :=
         forallb (forallb (fun l => (0 <? l) && (l <=? LOCK_TTL))) lock_life &&
         (* a failure inside the body applies none of the writes *)
         (if existsb (fun d => match d with FD _ _ _ true => true | _ => false end) fds
-         then ldata_eqb (map (data_of U now) (map (init_b now) init)) data else true) in
+         then ldata_eqb (map (data_of U now) (map (init_b now) init)) data &&
+              list_eqb (list_eqb Z.eqb) (map (dlife_of U now) (map (init_b now) init)) dlife      (* values and lifetimes *)
+         else true) in
       (agree, ok, [])
   | CCancel stuck => (true, negb stuck, [])
   end.
 Definition explain (c : case) :=
   match c with
-  | CFault md U now init cs used order flts _ _ _ _ _ _ =>
+  | CFault md U now init cs used order flts _ _ _ _ _ _ _ =>
       let w0 := {| bks := map (init_b now) init; pos := 0%nat; faults := flts; lorder := order |} in
       let '(w, r, s) := block md U now w0 used cs in (r, s, map (locks_in md U now) (bks w), map (data_of U now) (bks w))
   | CCancel _ => (true, false, [], [])
